@@ -31,7 +31,7 @@ import (
 func init() {
 	eng.Register(&eng.Monitor{
 		ID: "C19", Level: "exploration",
-		Rule: "cases: lit/* = batches of generated rlwe/bgv/ckks parameter literals (a valid boundary-heavy base literal with explicit primes, then at most one mutation out of ~55: logN outside [4,20], duplicate/composite/non-NTT-friendly/oversized primes, empty or doubly specified moduli, size requests of every size incl. custom root orders, invalid ring type/distributions, plaintext-modulus and default-scale classes); a reference validator decides whether the literal must be refused, may be refused, or must be accepted, and every accepted literal is exercised (ring arithmetic, encryption/decryption, encoding). gen/* = rlwe.GenModuli and ring.NTTFriendlyPrimesGenerator for every size 1..61 at one root order; rt/* = JSON/binary/literal round trips; derived/* = accessors vs definitions; shipped/* = one case per exported example/default set; boot/* = bootstrapping literals at small ring degree; hang/* = literals whose effective root order is >= 2^64. distinct key = (scheme, mutation, logN, ring type, #Q, #P, prime bit-lengths or requested sizes, distribution kinds, plaintext-modulus/scale class) for literals, (function, root order, size, count) for generators, (object kind, encoding, variant) for round trips, set name for shipped sets; non-trivial = the literal is mutated, or carries a prime of <= logNthRoot+3 or >= 59 bits, or a size request, or a non-default distribution/ring type; generator requests with count >= 2 or size within 3 of the root order or >= 59; every round-trip, derived, shipped, boot and hang case.",
+		Rule:  "cases: lit/* = batches of generated rlwe/bgv/ckks parameter literals (a valid boundary-heavy base literal with explicit primes, then at most one mutation out of ~55: logN outside [4,20], duplicate/composite/non-NTT-friendly/oversized primes, empty or doubly specified moduli, size requests of every size incl. custom root orders, invalid ring type/distributions, plaintext-modulus and default-scale classes); a reference validator decides whether the literal must be refused, may be refused, or must be accepted, and every accepted literal is exercised (ring arithmetic, encryption/decryption, encoding). gen/* = rlwe.GenModuli and ring.NTTFriendlyPrimesGenerator for every size 1..61 at one root order; rt/* = JSON/binary/literal round trips; derived/* = accessors vs definitions; shipped/* = one case per exported example/default set; boot/* = bootstrapping literals at small ring degree; lit/boundary-logN* = the ends of the admissible ring degrees (logN 3, 4, 20, 21) with primes that fit every degree; hang/* = size requests whose effective root order is >= 2^62, run under a 10 s deadline. distinct key = (scheme, mutation, logN, ring type, #Q, #P, prime bit-lengths or requested sizes, distribution kinds, plaintext-modulus/scale class) for literals, (function, root order, size, count) for generators, (object kind, encoding, variant) for round trips, set name for shipped sets; non-trivial = the literal is mutated, or carries a prime of <= logNthRoot+3 or >= 59 bits, or a size request, or a non-default distribution/ring type; generator requests with count >= 2 or size within 3 of the root order or >= 59; every round-trip, derived, shipped, boot and hang case.",
 		Cases: cases,
 		Assumptions: []string{
 			"math/big (ProbablyPrime(24), products, comparisons) and the harness reference arithmetic are correct",
